@@ -6,8 +6,12 @@
 package ksim
 
 import (
+	"context"
 	"encoding/binary"
+	"errors"
 	"fmt"
+	"io"
+	"net"
 	"os"
 	"runtime/debug"
 	"sync"
@@ -83,6 +87,11 @@ const (
 	DevDataFirst // the data reply overtakes its acknowledgement (the real kernel never does this)
 )
 
+// SendFailErrors: what a transport's Send can fail with - errno values and the error VALUES of Go's own layers (a
+// closed file / connection / pipe, a deadline, an arbitrary error), bare and wrapped.
+var SendFailErrors = []error{syscall.ENOBUFS, syscall.EBADF, syscall.EPIPE, syscall.ECONNREFUSED, os.ErrClosed, net.ErrClosed, io.ErrClosedPipe, io.EOF, io.ErrUnexpectedEOF, os.ErrDeadlineExceeded, os.ErrPermission, os.ErrNotExist, os.ErrExist, os.ErrInvalid, context.Canceled, context.DeadlineExceeded,
+	fmt.Errorf("transport: %w", os.ErrClosed), &os.PathError{Op: "write", Path: "netlink", Err: os.ErrClosed}, &os.SyscallError{Syscall: "sendto", Err: syscall.EBADF}, errors.New("transport down")}
+
 // MustFail reports whether the deviation is outside what the client must
 // tolerate (the op it hits may fail, and must not report success if it
 // replaces the acknowledgement).
@@ -105,6 +114,8 @@ type Shape struct {
 	// ReplyPids: nlmsg_pid of the successive replies (cycled); LenDelta: nlmsg_len = bytes sent + LenDelta
 	ReplyPids []uint32
 	LenDelta  int
+	// SendFailN / SendFailErr: the n-th Send (1-based) fails with SendFailErrors[SendFailErr]; nothing goes on the wire
+	SendFailN, SendFailErr int
 	// PanicOnClose / PanicOnSendN: the transport panics (a nil dereference in a wrapper, a closed channel): in Close after
 	// the close was counted; in the n-th Send (1-based) before anything is recorded
 	PanicOnClose bool
@@ -287,6 +298,10 @@ func (s *Sim) Send(msg syscall.NetlinkMessage) (uint32, error) {
 	s.sendCalls++
 	if n := s.Shape.PanicOnSendN; n > 0 && s.sendCalls == n {
 		panic("transport: send on closed channel")
+	}
+	if n := s.Shape.SendFailN; n > 0 && s.sendCalls == n {
+		s.Log = append(s.Log, fmt.Sprintf("send#%d fails: %v", n, SendFailErrors[s.Shape.SendFailErr]))
+		return 0, SendFailErrors[s.Shape.SendFailErr]
 	}
 	s.Seq++
 	req := &Sent{Seq: s.Seq, Type: msg.Header.Type, Flags: msg.Header.Flags, Pid: msg.Header.Pid, Data: append([]byte{}, msg.Data...)}
